@@ -1,5 +1,6 @@
 import Proofs.Query
 import Proofs.QueryShape
+import Proofs.QueryShapeMore
 import Proofs.MetaState
 
 /-!
@@ -410,5 +411,30 @@ example : pickAct opDispatch opElse .whereEqual = .callOp ∧ pickAct opDispatch
     two-hop route here, a skip test that is always true finds none (UnknownLinkException) -/
 example : iNavigate assocSkip schAB stAB 0 1 "R2" "" = some [20, 21] ∧
     iNavigate (.or (.atom .relDiffers) (.not (.atom .relDiffers))) schAB stAB 0 1 "R2" "" = none := by decide
+
+/-- the `links` dict every navigation consults (`MetaClass.navigate`, `_find_assoc_links`, `navigate_subtype`,
+    `sort_reflexive`): for every schema and class, the model's entries are the `add_link` calls of
+    `define_association` read from the source (Gen/RelateShape.lean `linkDefs`) — a link is filed under the class it
+    STARTS at, keyed by the class it LEADS TO, the rel id and the phrase handed to that call, the source link before
+    the target link — followed by the dict semantics of assignment (`dictInsert`) -/
+theorem link_dict_as_in_source (sch : Schema) (k : Kind) (i : Nat) :
+    linkEntriesFrom k i sch = iLinkEntriesFrom Pyx.Gen.RelateShape.linkDefs k i sch ∧
+    linkDict sch k = iLinkDict Pyx.Gen.RelateShape.linkDefs sch k :=
+  ⟨linkEntriesFrom_eq k sch i, linkDict_eq sch k⟩
+
+/-! non-vacuity: the interpreted `add_link` calls give the association class (2) of the schema above its two links
+    and class 0 its one; on a reflexive association the source link (stored under the TARGET phrase) comes first, and
+    link definitions added in the other order are another dict -/
+def aRefl : AssocSpec :=
+  { rel := "R1", srcKind := 0, srcKeys := [], srcMany := false, srcCond := true, srcPhrase := "succeeds",
+    tgtKind := 0, tgtKeys := [], tgtMany := false, tgtCond := true, tgtPhrase := "precedes" }
+example : (iLinkDict Pyx.Gen.RelateShape.linkDefs schAB 2).map (fun e => (e.toKind, e.rel, e.phrase, e.assoc, e.isSrc)) =
+      [(0, "R2", "", 0, false), (1, "R2", "", 1, false)] ∧
+    (iLinkDict Pyx.Gen.RelateShape.linkDefs schAB 0).map (fun e => (e.toKind, e.rel, e.phrase, e.assoc, e.isSrc)) =
+      [(2, "R2", "", 0, true)] ∧
+    (iLinkDict Pyx.Gen.RelateShape.linkDefs [aRefl] 0).map (fun e => (e.phrase, e.isSrc)) =
+      [("precedes", true), ("succeeds", false)] ∧
+    (iLinkDict Pyx.Gen.RelateShape.linkDefs.reverse [aRefl] 0).map (fun e => (e.phrase, e.isSrc)) =
+      [("succeeds", false), ("precedes", true)] := by decide
 
 end PyxProps.C09
